@@ -1,8 +1,10 @@
 """Replay driver for C05: loop-level findings by seed search (ssa.replay), propensity findings by C01's driver."""
-from . import ssa, C01
+from . import ssa, C01, C08
 
 
 def replay(spec):
     if spec.get("kind") in ("massaction", "hill"):
         return C01.replay(spec)
+    if spec.get("kind") == "follow":
+        return C08.replay(spec)
     return ssa.replay(spec)
